@@ -185,6 +185,19 @@ def crash_points(rng, entries, tier, per_program, tails=None, firsts=None):
         if len(first_pts) > per_program // 2:
             rng.shuffle(first_pts)
             first_pts = first_pts[:per_program // 2]
+        # ... and torn in-place writes (a header link / head-table rewrite cut in the middle) that follow an INDEX/SUMMARY pair closely:
+        # the chunk whose header is torn is then already referenced by an index on disk
+        def after_pair(k):
+            for m in range(max(0, k - 7), k + 1):
+                t = (tails[m] if tails and m < len(tails) else (None, None)) or (None, None)
+                if t[0] and t[0].endswith(("_INDEX", "_SUMM")):
+                    return True
+            return False
+        torn_pts = [p for p in pts if p[2] == "inplace" and p[1] in (1, 8, 9, 28, 31) and after_pair(p[0])]
+        if len(torn_pts) > per_program // 5:
+            rng.shuffle(torn_pts)
+            torn_pts = torn_pts[:per_program // 5]
+        first_pts = first_pts + [p for p in torn_pts if p not in set(first_pts)]
         fs = set(first_pts)
         keep = [p for p in pts if structural(p) and p not in fs]
         if len(keep) > (2 * per_program) // 3 - len(first_pts):
@@ -202,6 +215,7 @@ def image_script(prog_ops, sigs, k, j, stats=False):
     rd = []
     for sid in sigs:
         rd.append("rdall %d" % sid)
+        rd.append("rdall %d" % sid)       # again: a first call that fails with an error code must not make a later one return wrong data
         if sigs[sid].get("sdf"):
             rd.append("stall %d %d" % (sid, sigs[sid]["sdf"]))
             rd.append("stall %d %d" % (sid, sigs[sid]["sdf"] * sigs[sid]["sumdf"]))
